@@ -4,10 +4,11 @@
 use crate::refopt::{self, norm2};
 use crate::Out;
 use linfa::traits::{Fit, Predict};
-use linfa::Dataset;
+use crate::layout::{expand, lay};
+use linfa::DatasetBase;
 use linfa_logistic::LogisticRegression;
-use lvmc_core::{guarded, json, Violation};
-use ndarray::{Array1, Array2};
+use lvmc_core::{guarded, Violation};
+use ndarray::Array1;
 use serde::{Deserialize, Serialize};
 
 #[derive(Clone, Debug, Serialize, Deserialize)]
@@ -30,35 +31,91 @@ pub struct BinCase {
     pub retry_max_iter: u64,
     pub order: String,
     pub scale: f64,
+    /// rows (and groups) are cycled to this many samples (replicated lattice)
+    #[serde(default)]
+    pub n_rows: Option<usize>,
+    /// memory layout of the records handed to fit / of the query matrix handed to predict*
+    #[serde(default = "crate::std_layout")]
+    pub fit_layout: String,
+    #[serde(default = "crate::std_layout")]
+    pub query_layout: String,
+    /// element type of the subject: f64 | f32
+    #[serde(default = "crate::f64_name")]
+    pub float: String,
 }
 
 pub const OWN_SCORE_BOUND: f64 = 15.0;
 
 pub fn run(case: &BinCase, viols: &mut Vec<Violation>) -> Out {
-    match (case.label_type.as_str(), case.naming) {
-        ("bool", 0) => typed::<bool>(case, [false, true], viols),
-        ("bool", _) => typed::<bool>(case, [true, false], viols),
-        ("usize", 0) => typed::<usize>(case, [0, 1], viols),
-        ("usize", _) => typed::<usize>(case, [7, 3], viols),
-        ("str", 0) => typed::<&'static str>(case, ["cat", "dog"], viols),
-        ("str", _) => typed::<&'static str>(case, ["zebra", "ant"], viols),
-        ("string", 0) => typed::<String>(case, ["cat".to_string(), "dog".to_string()], viols),
-        ("string", _) => typed::<String>(case, ["zebra".to_string(), "ant".to_string()], viols),
-        _ => panic!("bad label type"),
+    if case.fit_layout == "standard" && case.query_layout == "standard" {
+        return run_inner(case, viols);
+    }
+    // layout case: the standard-layout run of the same case is the baseline; what only the other layout breaks
+    // is reported as `<thing>.layout_dependence`
+    let mut base = case.clone();
+    base.fit_layout = "standard".into();
+    base.query_layout = "standard".into();
+    let mut bv = Vec::new();
+    let bo = run_inner(&base, &mut bv);
+    if !bv.is_empty() || bo.ood {
+        viols.extend(bv);
+        return bo;
+    }
+    let mut lv = Vec::new();
+    let o = run_inner(case, &mut lv);
+    for v in lv {
+        viols.push(crate::as_layout_dependence(v, &case.fit_layout, &case.query_layout));
+    }
+    o
+}
+
+fn run_inner(case: &BinCase, viols: &mut Vec<Violation>) -> Out {
+    macro_rules! go {
+        ($f:ident) => {
+            match (case.label_type.as_str(), case.naming) {
+                ("bool", 0) => $f::<bool>(case, [false, true], viols),
+                ("bool", _) => $f::<bool>(case, [true, false], viols),
+                ("usize", 0) => $f::<usize>(case, [0, 1], viols),
+                ("usize", _) => $f::<usize>(case, [7, 3], viols),
+                ("str", 0) => $f::<&'static str>(case, ["cat", "dog"], viols),
+                ("str", _) => $f::<&'static str>(case, ["zebra", "ant"], viols),
+                ("string", 0) => $f::<String>(case, ["cat".to_string(), "dog".to_string()], viols),
+                ("string", _) => $f::<String>(case, ["zebra".to_string(), "ant".to_string()], viols),
+                _ => panic!("bad label type"),
+            }
+        };
+    }
+    match case.float.as_str() {
+        "f64" => go!(typed_f64),
+        "f32" => go!(typed_f32),
+        _ => panic!("bad float type"),
     }
 }
 
-fn typed<C: Ord + Clone + Default + std::fmt::Debug>(case: &BinCase, cls: [C; 2], viols: &mut Vec<Violation>) -> Out {
+macro_rules! typed_impl {
+    ($name:ident, $F:ty, $is32:expr) => {
+fn $name<C: Ord + Clone + Default + std::fmt::Debug>(case: &BinCase, cls: [C; 2], viols: &mut Vec<Violation>) -> Out {
     let mut out = Out::default();
-    let n = case.x.len();
-    let d = case.x[0].len();
+    let is32: bool = $is32;
+    let alpha_s = (case.alpha as $F) as f64;
+    // the data as the subject sees them (replicated to n_rows, rounded to its float type)
+    let xs: Vec<Vec<f64>> = expand(&case.x, case.n_rows).iter().map(|r| r.iter().map(|&v| (v as $F) as f64).collect()).collect();
+    let groups: Vec<u8> = expand(&case.groups, case.n_rows);
+    let n = xs.len();
+    let d = xs[0].len();
     let cj = || serde_json::to_value(crate::Case::Binary(case.clone())).unwrap();
-    let xmax = case.x.iter().flatten().fold(0.0f64, |m, v| m.max(v.abs())).max(1.0);
+    // tolerances: f64 as in DESIGN 3.6; f32: probabilities 2e-6, tie margin 1e-6, objective gap 1e-5 relative
+    // (40 ulp of an f32 cost, the solver cannot resolve less) and a gradient allowance of 1e-5 * sum_i |z_i|
+    // for the f32 rounding of the solver's own gradient
+    let gscale: f64 = xs.iter().map(|r| r.iter().map(|v| v.abs()).sum::<f64>() + 1.0).sum();
+    let (ptol, margin, gap_rel, g_extra) = if is32 { (2e-6, 1e-6, 1e-5, 1e-5 * gscale) } else { (1e-9, 1e-9, 1e-8, 0.0) };
+    let gthr = 10.0 * case.gtol + g_extra;
+    let xmax = xs.iter().flatten().fold(0.0f64, |m, v| m.max(v.abs())).max(1.0);
 
     // ---- domain (alpha = 0 needs a finite maximiser of the likelihood) ----
     // group 1 is coded +1 for the domain test (the test is symmetric in the sign of y)
-    let y_dom: Vec<f64> = case.groups.iter().map(|&g| if g == 1 { 1.0 } else { -1.0 }).collect();
-    let exact = refopt::weakly_separable(&case.x, &y_dom, case.intercept);
+    let y_dom: Vec<f64> = groups.iter().map(|&g| if g == 1 { 1.0 } else { -1.0 }).collect();
+    let exact = refopt::weakly_separable(&xs, &y_dom, case.intercept);
     if case.alpha == 0.0 {
         match exact {
             Some(false) => {}
@@ -76,16 +133,17 @@ fn typed<C: Ord + Clone + Default + std::fmt::Debug>(case: &BinCase, cls: [C; 2]
     }
 
     // ---- fit with the real code ----
-    let x = Array2::from_shape_fn((n, d), |(i, j)| case.x[i][j]);
-    let y: Array1<C> = Array1::from_iter(case.groups.iter().map(|&g| cls[g as usize].clone()));
-    let ds = Dataset::new(x.clone(), y);
-    let mut params = LogisticRegression::default()
-        .alpha(case.alpha)
+    let rows: Vec<Vec<$F>> = xs.iter().map(|r| r.iter().map(|&v| v as $F).collect()).collect();
+    let laid = lay(&rows, &case.fit_layout, <$F>::NAN);
+    let y: Array1<C> = Array1::from_iter(groups.iter().map(|&g| cls[g as usize].clone()));
+    let ds = DatasetBase::new(laid.view(), y);
+    let mut params = LogisticRegression::<$F>::default()
+        .alpha(case.alpha as $F)
         .with_intercept(case.intercept)
         .max_iterations(case.max_iter)
-        .gradient_tolerance(case.gtol);
+        .gradient_tolerance(case.gtol as $F);
     if let Some(init) = &case.init {
-        params = params.initial_params(Array1::from(init.clone()));
+        params = params.initial_params(Array1::from(init.iter().map(|&v| v as $F).collect::<Vec<$F>>()));
     }
     let mut model = match guarded(|| params.fit(&ds)) {
         Ok(Ok(m)) => m,
@@ -104,17 +162,17 @@ fn typed<C: Ord + Clone + Default + std::fmt::Debug>(case: &BinCase, cls: [C; 2]
     if case.retry_max_iter > case.max_iter {
         let m = &model;
         let pos_is_1 = m.labels().pos.class == cls[1];
-        let yv: Vec<f64> = case.groups.iter().map(|&g| if (g == 1) == pos_is_1 { 1.0 } else { -1.0 }).collect();
-        let mut theta: Vec<f64> = m.params().to_vec();
+        let yv: Vec<f64> = groups.iter().map(|&g| if (g == 1) == pos_is_1 { 1.0 } else { -1.0 }).collect();
+        let mut theta: Vec<f64> = m.params().iter().map(|&v| v as f64).collect();
         if case.intercept {
-            theta.push(m.intercept());
+            theta.push(m.intercept() as f64);
         }
         if theta.len() == d + case.intercept as usize {
-            if let Some(e) = refopt::bin_eval(&case.x, &yv, case.alpha, case.intercept, &theta) {
-                let fgh0 = |t: &[f64]| refopt::bin_eval(&case.x, &yv, case.alpha, case.intercept, t);
-                if norm2(&e.g) > 10.0 * case.gtol {
+            if let Some(e) = refopt::bin_eval(&xs, &yv, alpha_s, case.intercept, &theta) {
+                let fgh0 = |t: &[f64]| refopt::bin_eval(&xs, &yv, alpha_s, case.intercept, t);
+                if norm2(&e.g) > gthr {
                     let own0 = refopt::lm_newton(&fgh0, &vec![0.0; theta.len()], 1e-10 * xmax, 200);
-                    if own0.converged && e.f - own0.f > 1e-8 * own0.f.abs().max(1.0) {
+                    if own0.converged && e.f - own0.f > gap_rel * own0.f.abs().max(1.0) {
                         out.tag("binary_refits_with_retry_max_iter");
                         match guarded(|| params.clone().max_iterations(case.retry_max_iter).fit(&ds)) {
                             Ok(Ok(m2)) => model = m2,
@@ -137,7 +195,7 @@ fn typed<C: Ord + Clone + Default + std::fmt::Debug>(case: &BinCase, cls: [C; 2]
     let labels = model.labels();
     let (pos, neg) = (labels.pos.class.clone(), labels.neg.class.clone());
     let set_ok = (pos == cls[0] && neg == cls[1]) || (pos == cls[1] && neg == cls[0]);
-    if !set_ok || labels.pos.label != 1.0 || labels.neg.label != -1.0 {
+    if !set_ok || labels.pos.label as f64 != 1.0 || labels.neg.label as f64 != -1.0 {
         viols.push(Violation::new(
             "logistic.labels.wrong_class_set",
             format!("trained on classes {:?}, labels() reports pos={:?} ({}) neg={:?} ({})", cls, pos, labels.pos.label, neg, labels.neg.label),
@@ -154,9 +212,9 @@ fn typed<C: Ord + Clone + Default + std::fmt::Debug>(case: &BinCase, cls: [C; 2]
         } else {
             out.tag("binary_pos_is_smaller_class_by_ord");
         }
-        let c1 = case.groups.iter().filter(|&&g| g == 1).count();
+        let c1 = groups.iter().filter(|&&g| g == 1).count();
         let c0 = n - c1;
-        let first = case.groups[0];
+        let first = groups[0];
         let by_count = if c1 > c0 { 1 } else if c0 > c1 { 0 } else { first };
         if pos_group == by_count {
             out.tag("binary_pos_is_more_frequent_class_or_first_seen_on_tie");
@@ -164,11 +222,11 @@ fn typed<C: Ord + Clone + Default + std::fmt::Debug>(case: &BinCase, cls: [C; 2]
             out.tag("binary_pos_is_neither_rule");
         }
     }
-    let yv: Vec<f64> = case.groups.iter().map(|&g| if g == pos_group { 1.0 } else { -1.0 }).collect();
+    let yv: Vec<f64> = groups.iter().map(|&g| if g == pos_group { 1.0 } else { -1.0 }).collect();
 
     // ---- returned parameters ----
-    let w: Vec<f64> = model.params().iter().cloned().collect();
-    let b = model.intercept();
+    let w: Vec<f64> = model.params().iter().map(|&v| v as f64).collect();
+    let b = model.intercept() as f64;
     if w.len() != d {
         viols.push(Violation::new("logistic.params.wrong_length", format!("params() has {} entries for {} features", w.len(), d), cj()));
         return out;
@@ -187,11 +245,11 @@ fn typed<C: Ord + Clone + Default + std::fmt::Debug>(case: &BinCase, cls: [C; 2]
     out.nontrivial = w.iter().any(|&v| v != 0.0);
 
     // ---- stationarity: own gradient of the documented objective + own Newton solve ----
-    let fgh = |t: &[f64]| refopt::bin_eval(&case.x, &yv, case.alpha, case.intercept, t);
+    let fgh = |t: &[f64]| refopt::bin_eval(&xs, &yv, alpha_s, case.intercept, t);
     let at = fgh(&theta).expect("finite objective at finite parameters");
     let gn = norm2(&at.g);
     let own = refopt::lm_newton(&fgh, &vec![0.0; theta.len()], 1e-10 * xmax, 200);
-    let own_scores = case.x.iter().map(|xi| refopt::bin_score(xi, &own.x, case.intercept).abs()).fold(0.0f64, f64::max);
+    let own_scores = xs.iter().map(|xi| refopt::bin_score(xi, &own.x, case.intercept).abs()).fold(0.0f64, f64::max);
     let certified = own.converged && (case.alpha > 0.0 || own_scores <= OWN_SCORE_BOUND);
     if case.alpha == 0.0 {
         out.max_own_score = own_scores;
@@ -203,15 +261,15 @@ fn typed<C: Ord + Clone + Default + std::fmt::Debug>(case: &BinCase, cls: [C; 2]
         out.nontrivial = false;
     } else {
         let gap = at.f - own.f;
-        let gap_tol = 1e-8 * own.f.abs().max(1.0);
-        if gn > 10.0 * case.gtol {
+        let gap_tol = gap_rel * own.f.abs().max(1.0);
+        if gn > gthr {
             out.tag("binary_gradient_above_10tol");
         }
-        if gn > 10.0 * case.gtol && gap > gap_tol {
+        if gn > gthr && gap > gap_tol {
             viols.push(Violation::new(
                 "logistic.fit.not_stationary",
                 format!(
-                    "returned w={:?} b={} (max_iterations {}): own gradient norm of the documented objective {:.3e} > 10 x gradient_tolerance {:.1e} AND objective {:.12} exceeds the own Newton minimum {:.12} (at {:?}) by {:.3e} > {:.1e}",
+                    "returned w={:?} b={} (max_iterations {}): own gradient norm of the documented objective {:.3e} > 10 x gradient_tolerance {:.1e} (+ f32 allowance) AND objective {:.12} exceeds the own Newton minimum {:.12} (at {:?}) by {:.3e} > {:.1e}",
                     w, b, case.retry_max_iter.max(case.max_iter), gn, case.gtol, at.f, own.f, own.x, gap, gap_tol
                 ),
                 cj(),
@@ -224,7 +282,7 @@ fn typed<C: Ord + Clone + Default + std::fmt::Debug>(case: &BinCase, cls: [C; 2]
     }
 
     // ---- probabilities and decisions ----
-    let mut queries: Vec<Vec<f64>> = case.x.clone();
+    let mut queries: Vec<Vec<f64>> = xs.clone();
     queries.push(vec![0.0; d]);
     let ww: f64 = w.iter().map(|v| v * v).sum();
     if ww > 0.0 && ww.is_finite() {
@@ -238,14 +296,18 @@ fn typed<C: Ord + Clone + Default + std::fmt::Debug>(case: &BinCase, cls: [C; 2]
     }
     queries.push(vec![1e3; d]);
     queries.push(vec![-1e3; d]);
-    let q = Array2::from_shape_fn((queries.len(), d), |(i, j)| queries[i][j]);
+    // as the subject sees them
+    let queries: Vec<Vec<f64>> = queries.into_iter().map(|r| r.into_iter().map(|v| (v as $F) as f64).collect::<Vec<f64>>()).filter(|r| r.iter().all(|v| v.abs() < 1e30)).collect();
+    let qrows: Vec<Vec<$F>> = queries.iter().map(|r| r.iter().map(|&v| v as $F).collect()).collect();
+    let qlaid = lay(&qrows, &case.query_layout, <$F>::NAN);
+    let q = qlaid.view();
     let thresholds: [Option<f64>; 4] = [None, Some(0.0), Some(0.3), Some(1.0)];
     for thr in thresholds {
         let m = match thr {
             None => model.clone(),
-            Some(t) => model.clone().set_threshold(t),
+            Some(t) => model.clone().set_threshold(t as $F),
         };
-        let tval = thr.unwrap_or(0.5);
+        let tval = (thr.unwrap_or(0.5) as $F) as f64;
         let res = guarded(|| (m.predict_probabilities(&q), m.predict(&q)));
         let (probs, pred) = match res {
             Ok(r) => r,
@@ -256,7 +318,7 @@ fn typed<C: Ord + Clone + Default + std::fmt::Debug>(case: &BinCase, cls: [C; 2]
         };
         for (i, qi) in queries.iter().enumerate() {
             out.queries += 1;
-            let p = probs[i];
+            let p = probs[i] as f64;
             let s = refopt::bin_score(qi, &w, false) + b;
             let pref = refopt::sigmoid(s);
             if !p.is_finite() || !(0.0..=1.0).contains(&p) {
@@ -264,7 +326,7 @@ fn typed<C: Ord + Clone + Default + std::fmt::Debug>(case: &BinCase, cls: [C; 2]
                 continue;
             }
             // rounding of the score itself (|s| up to 1e3) moves the probability by <= |s| * 2^-50 * p(1-p)
-            if (p - pref).abs() > 1e-9 {
+            if (p - pref).abs() > ptol {
                 viols.push(Violation::new(
                     "logistic.predict_probabilities.wrong_value",
                     format!("query {:?}: probability {} but sigm(x.w + b) = {}", qi, p, pref),
@@ -278,7 +340,7 @@ fn typed<C: Ord + Clone + Default + std::fmt::Debug>(case: &BinCase, cls: [C; 2]
             let want_pos = if p == tval {
                 out.tag("binary_exact_threshold_ties");
                 Some(true) // "minimum probability needed" (rustdoc of LogisticRegression / set_threshold)
-            } else if (p - tval).abs() <= 1e-9 {
+            } else if (p - tval).abs() <= margin {
                 None
             } else {
                 Some(p > tval)
@@ -299,6 +361,10 @@ fn typed<C: Ord + Clone + Default + std::fmt::Debug>(case: &BinCase, cls: [C; 2]
             }
         }
     }
-    let _ = json!(0);
     out
 }
+    };
+}
+
+typed_impl!(typed_f64, f64, false);
+typed_impl!(typed_f32, f32, true);
